@@ -91,6 +91,23 @@ def check_property(prop,tier,repo,seed,only=None,verbose=False):
   for hook in meta.get('extra',[]):
     modname,fn=hook.split(':')
     extras+=getattr(importlib.import_module(modname),fn)(prop,tier,seed,repo,reg,known)
+  # assumptions scan: every unchecked ingredient of the contracts that serve this property goes into the evidence
+  meta=dict(meta); scan=[]
+  for k in keys:
+    c=reg.contracts[k]; short=k.split('::')[-1]
+    if c.pure_methods: scan.append(f"{short}: methods taken as pure uninterpreted functions of the objects: {', '.join(sorted(c.pure_methods))}")
+    if c.class_predicates: scan.append(f"{short}: class membership of opaque objects taken as pure predicates: {', '.join(sorted(c.class_predicates))}")
+    if c.opaque_methods: scan.append(f"{short}: opaque calls (assumed pure, non-raising, typed result): {', '.join(sorted(c.opaque_methods))}")
+    if c.exit_lemmas: scan.append(f"{short}: finite-set lemma instances assumed at exit: {'; '.join(c.exit_lemmas)}")
+    if c.abstract_lists: scan.append(f"{short}: lists abstracted by their element sets (order-irrelevance assumed, duplicate-freeness proved where claimed): {', '.join(c.abstract_lists if not isinstance(c.abstract_lists,dict) else [f'{a}:{b}' for a,b in c.abstract_lists.items()])}")
+    for lk,lp in (c.loops or {}).items():
+      if getattr(lp,'lemmas',None): scan.append(f"{short}: loop {lk!r} assumes the lemmas {'; '.join(lp.lemmas)}")
+    if c.note and (c.pure_methods or c.opaque_methods or c.class_predicates): scan.append(f"{short}: {c.note}")
+  used=set()
+  for k in keys:
+    for cal,cc in reg.contracts.items():
+      if cc.trusted and cal not in used and cc.file==reg.contracts[k].file: used.add(cal); scan.append(f"trusted (assumed) contract of {cal.split('::')[-1]}: {cc.note or 'no body verified'}")
+  meta['assumptions']=list(meta.get('assumptions',[]))+scan
   return report(prop,tier,seed,repo,meta,results,extras,known,lock,t0,verbose)
 
 def report(prop,tier,seed,repo,meta,results,extras,known,lock,t0,verbose):
@@ -161,6 +178,11 @@ def report(prop,tier,seed,repo,meta,results,extras,known,lock,t0,verbose):
         continue
       if o['status']=='violated':
         cex=o['cex']
+        if not cex.get('known'):
+          # open known findings that name this very obligation (class, clause) by a glob pattern: a different clause / class is still reported
+          import fnmatch
+          for k in known:
+            if k.get('status')=='open' and k.get('obligation_match') and fnmatch.fnmatch(o['name'],k['obligation_match']): cex['known']=k; break
         if cex.get('known'):
           known_hits.setdefault(cex['known']['id'],cex['known']); n_dis+=0
           continue
@@ -243,7 +265,7 @@ def report(prop,tier,seed,repo,meta,results,extras,known,lock,t0,verbose):
 
 GLOBAL_TRUSTED=["pyvc symbolic executor and VC generator (/verif/pyvc) - mitigated by native sampling of every contract and the mutation self-test",
   "z3 5.1.0 (cvc5 1.0.3 for z3's unknowns)","CPython 3.12 int semantics = mathematical integers (lemma schemas cross-checked natively each run)",
-  "lemma schemas of pyvc/theory.py (ground instances only; cross-checked on ~2e5 operands per run; Lean statements in lemmas/)"]
+  "lemma schemas of pyvc/theory.py (ground instances only; cross-checked natively on ~3.5e5 operands per run; not proved in a proof assistant)"]
 GLOBAL_ASSUMPTIONS=["memory exhaustion / recursion limits ignored","operands are of the types listed in the contract views (int, bool, Bits, None, slice, plain object)",
   "strings are opaque: message texts of exceptions are not verified"]
 
